@@ -168,8 +168,11 @@ def near(rng, t):
         if t[2]:
             t[2][rng.randrange(len(t[2]))] = L.rand_param(rng)
     elif k == 'Q':
-        if rng.random() < 0.5:
+        r = rng.random()
+        if r < 0.3:
             t[1] = rng.choice(L.QUANTS)
+        elif r < 0.6:
+            t[2] = [rng.randrange(4), rng.randrange(2)]
         else:
             t[3] = near(rng, t[3])
     elif k == 'O':
@@ -608,7 +611,14 @@ def run(args) -> int:
     chk.theorems = THEOREMS
     for t, a in zip(THEOREMS, chk.assumptions):
         chk.obligation(f'theorem:{t}', a == 'Closed under the global context', kind='T')
-    tb = probe_json('probe_c14.py', ['tables'])
+    try:
+        tb = probe_json('probe_c14.py', ['tables'])
+    except vlib.ProbeError as e:
+        chk.violation('import:pytableaux.lang', 'the package cannot be imported / its lexical tables cannot be read: '
+                      + str(e).strip().splitlines()[-1][:200],
+                      dict(kind='obligation', obligation='import pytableaux.lang and read _Ranks / orders',
+                           detail=str(e)[-1500:]), found_input=False)
+        return chk.finish()
     chk.notes['tables'] = dict(ranks=tb['ranks'], default_cache_maxlen=tb['cache_maxlen'])
     rng = random.Random(args.seed)
     thorough = args.tier == 'thorough'
